@@ -117,10 +117,11 @@ fn part_reader(rep: &Report, prop: &str, files: &[TextFile], bszs_all: bool, dir
 fn scaled_files(bsz: usize, maxm: usize, quick: bool) -> Vec<TextFile> {
     // the head line is 25 bytes of timestamp + body + '\n'
     let mut body_lens: Vec<usize> = vec![0, 1, bsz - 27, bsz - 26, bsz - 25, bsz + 1, 2 * bsz + 3];
-    let mut cont_sets: Vec<Vec<usize>> = vec![vec![], vec![0], vec![bsz - 1], vec![bsz], vec![1, bsz + 1]];
+    // (vec![0, n]: an empty line followed by a continuation line that crosses a block boundary)
+    let mut cont_sets: Vec<Vec<usize>> = vec![vec![], vec![0], vec![bsz - 1], vec![bsz], vec![1, bsz + 1], vec![0, bsz + 1], vec![0, 5]];
     if quick {
         body_lens = vec![0, bsz - 27, bsz - 26, bsz - 25, 2 * bsz + 3];
-        cont_sets = vec![vec![], vec![0], vec![bsz - 1], vec![1, bsz + 1]];
+        cont_sets = vec![vec![], vec![0], vec![bsz - 1], vec![1, bsz + 1], vec![0, bsz + 1]];
     }
     let mut shapes: Vec<(usize, Vec<usize>)> = vec![];
     for b in &body_lens {
